@@ -206,6 +206,8 @@ def gen_case(seed, tier):
     config["vendor"] = {"platform": fl.choice(vendors.NAMES), "castable": fl.choice([None, None, "enum", "struct"]),
                         "default_init": fl.random() < 0.3, "comb_domain": fl.random() < 0.1}         # (no init= given: the stages start at the shape's default)
     case["rerun"] = fl.random() < 0.2
+    if kind in ("ff", "pulse"):
+        config["o_async"] = fl.random() < 0.4      # the (pulsed) reset of the output domain is asynchronous
     if kind in ("async", "reset") and not config.get("shadow_neg"):
         names = [n_ for n_ in ("async_ff", "reset_sync", "src") if n_ != config.get("o_name")]
         config["i_reset_of"] = fl.choice([None, None] + names)
@@ -445,7 +447,7 @@ def run_case(case):
             P["ff_signed_input"] = 1
             if ow_ > w_:
                 P["ff_signed_input_wider_output"] = 1
-        domains = [DomainSpec("o", edge=config["o_edge"]), DomainSpec("x")]
+        domains = [DomainSpec("o", edge=config["o_edge"], async_reset=bool(config.get("o_async"))), DomainSpec("x")]
     elif kind == "async":
         from amaranth.hdl import ResetSignal
         irn = config.get("i_reset_of")      # the asynchronous input is the reset of another domain (of any name), late bound
@@ -467,8 +469,10 @@ def run_case(case):
     else:
         dut = cdc.PulseSynchronizer("i", "o", stages=stages)
         i, o = dut.i, dut.o
-        domains = [DomainSpec("i", edge=config["i_edge"], reset_less=not config.get("pulse_resets")),
-                   DomainSpec("o", edge=config["o_edge"], reset_less=not config.get("pulse_resets"))]
+        domains = [DomainSpec("i", edge=config["i_edge"], reset_less=not config.get("pulse_resets"),
+                              async_reset=bool(config.get("pulse_resets") and config.get("o_async"))),
+                   DomainSpec("o", edge=config["o_edge"], reset_less=not config.get("pulse_resets"),
+                              async_reset=bool(config.get("pulse_resets") and config.get("o_async")))]
         P.update(pulses=0, back_to_back_pulses=0, precondition_broken=0, coincident_pulse_and_o_edge=0, unsampled_input_glitch=0)
     if config.get("shadow_neg"):
         from amaranth.hdl import ClockDomain, Elaboratable
@@ -636,6 +640,10 @@ def run_case(case):
                 o_edge = edge.get("o", False)
                 if clk_changes and not any(edge.values()):
                     stats["faults"]["inactive"] += 1
+                if kind == "ff" and config.get("o_async") and lv.get("r") and not config["reset_less"]:
+                    # an asynchronous reset holds resettable stages at their initial value from the moment it rises
+                    sr = [config.get("init", 0)] * stages
+                    P["ff_async_reset_applied"] = P.get("ff_async_reset_applied", 0) + 1
                 if kind == "ff":
                     if edge.get("x") and not o_edge:
                         stats["faults"]["inactive"] += 1
